@@ -21,6 +21,8 @@ fn main() {
         "world" => sv::eng_world::run(&mut rep),
         "storage" => sv::eng_storage::run(&mut rep),
         "join" => sv::eng_join::run(&mut rep),
+        "changeset" => sv::eng_changeset::run(&mut rep),
+        "panicdrop" => sv::eng_panicdrop::run(&mut rep),
         "parjoin" => sv::eng_join::par::run(&mut rep),
         "saveload" => sv::eng_saveload::run(&mut rep),
         "dispatch" => sv::eng_dispatch::run(&mut rep),
